@@ -5,7 +5,7 @@ use nom::Err as NomErr;
 use nom::IResult;
 use nom::bytes::complete::take;
 use nom::error::{Error as NomError, ErrorKind};
-use nom::number::complete::{be_i24, be_u24, be_u32, be_u128};
+use nom::number::complete::{be_i24, be_u8, be_u24, be_u32, be_u128};
 use nom_derive::*;
 use serde::Serialize;
 
@@ -284,7 +284,11 @@ impl FieldValue {
                 )
             }
             FieldDataType::ProtocolType => {
-                let (i, protocol) = ProtocolTypes::parse(remaining)?;
+                // Numbers the enum has no variant for decode as Unknown; failing here
+                // would drop this record and every record after it in the flowset.
+                let (i, protocol) = ProtocolTypes::parse(remaining).or_else(|_| {
+                    be_u8(remaining).map(|(i, _)| (i, ProtocolTypes::Unknown))
+                })?;
                 (i, FieldValue::ProtocolType(protocol))
             }
             FieldDataType::Float64 => {
